@@ -36,7 +36,7 @@ func init() {
 	register(&RuleSet{
 		Property: "C15",
 		Explanation: "Pipeline obligations of the ::/0 route expansion (the maximal-antichain semantics over all route lists is NOT decided): R-C15-1 a route is dropped under exactly Is4, IsSingleIP, covered-by-another, or already-emitted; " +
-			"R-C15-2 the covered test excludes the route itself, tests containment of the route in the other prefix, and requires the other prefix to be shorter; R-C15-3 each kept route is emitted once (membership test + insert, or compaction after sorting); " +
+			"R-C15-2 the covered test excludes the route itself, tests containment of the route in the other prefix, and requires the other prefix to be shorter, with no condition on any other field of the two routes; R-C15-3 each kept route is emitted once (membership test + insert, or compaction after sorting); " +
 			"R-C15-4 sorted ascending before return, errors propagate, one RouteInformation per element with the stanza's preference/lifetime; LoopbackRoutes considers up loopback interfaces and the main table R-C15-5 listing failures are returned; R-C15-6 the parser rejects overlapping or repeated static routes and a repeated ::/0 wildcard; R-C15-7 (linux) routesByIndex turns every message of the kernel dump into exactly one Route with the dumped destination and length.",
 		Assumptions: []string{"Go type checker and go/ssa construction are correct", "netip.Prefix.Contains/Bits/Overlaps have their documented meaning"},
 		NotCovered:  []string{"the maximal non-overlapping set semantics over all route lists as a whole"},
@@ -1291,7 +1291,7 @@ func runC15(c *Ctx) {
 		return nil
 	}
 	for _, atoms := range coverDecisions {
-		okDiffer, okContain, okShorter := false, false, false
+		okDiffer, okContain, okShorter, extraCond := false, false, false, false
 		for _, a := range atoms {
 			switch filterKind(a) {
 			case "Self":
@@ -1299,6 +1299,11 @@ func runC15(c *Ctx) {
 				differ := (a.Cond.Tok == token.NEQ) == a.Pos
 				if differ && ((isThis(x) && isOther(y)) || (isOther(x) && isThis(y))) {
 					okDiffer = true
+				} else if !(isThis(x) || isThis(y)) || !(isOther(x) || isOther(y)) {
+					// a comparison of some other field of the two routes (interface index, preference, …) inside the
+					// covered decision narrows it: "covered" is a relation between the two prefixes and nothing else
+					extraCond = true
+					roles += fmt.Sprintf("extra(%s %s %s);", shortElem(x), a.Cond.Tok, shortElem(y))
 				}
 			case "Contains":
 				// other.Contains(this.Addr())
@@ -1337,6 +1342,10 @@ func runC15(c *Ctx) {
 		if !(okDiffer && okContain && okShorter) {
 			okCover = false
 			roles += fmt.Sprintf("[decision lacks: differ=%v contains(other,this)=%v other-shorter=%v]", okDiffer, okContain, okShorter)
+		}
+		if extraCond {
+			okCover = false
+			roles += "[decision has a condition on another field of the routes]"
 		}
 	}
 	c.R.Check(okCover, "R-C15-2", name+":covered-test", name, c.pos(cur.Pos()), fmt.Sprintf("covered decision conjunctions: %v; %s", coverConj, roles),
